@@ -373,8 +373,11 @@ class Interpreter:
                 # Deprecated since 1.4.0
                 self._raise_event(MetaEvent('delayed event sent', event=event))
         elif isinstance(event, MetaEvent):
-            for listener in self._listeners:
-                listener(event)
+            # A listener may detach listeners (itself included) while it is notified:
+            # do not skip the remaining ones, and do not notify the ones that were detached.
+            for listener in list(self._listeners):
+                if listener in self._listeners:
+                    listener(event)
         else:
             raise ValueError(
                 'Only InternalEvent and MetaEvent can be sent by a statechart, not {}'.format(
